@@ -76,7 +76,7 @@ extern('Relay._attempt', params={'self': 'Relay', 'envelope': 'Envelope', 'attem
        notes='relay result contract (Relay.attempt docstring + C01): None | Reply | mapping keyed by exactly the '
              'recipients | sequence of equal length; raises Transient/Permanent RelayError or anything else')
 
-extern('logging.log_exception', params={'name': 'Str'}, notes='logging: no effect on verified state')
+extern('logging.log_exception', params={'name': 'Str', 'kwargs': 'Kwargs'}, notes='logging: no effect on verified state')
 
 # ---------------------------------------------------------------------------- Queue
 klass('Queue', module=M,
